@@ -207,7 +207,7 @@ def from_notes(sid):
     prop = 'C' + re.match(r'c(\d+)', sid).group(1)
     return dict(prop=prop, site=head_change or 'see agent_notes.md', change=pick(r'change|the bug|idea') or 'see agent_notes.md',
                 needs=pick(r'manifest|trigger|needed|needs') or 'see agent_notes.md',
-                origin_extra=({'p':'fifth','q':'fifth','r':'fifth','s':'fifth','u':'sixth','v':'sixth','w':'sixth','x':'seventh','y':'seventh','z':'seventh'}.get(sid[-1],'fourth')) + ' round: the prompt carried the full property record and a FOCUS file taken from the property\'s own anchors')
+                origin_extra='eighth round: the prompt carried the full property record and a list of kinds of trigger to choose from (no focus file)' if sid[-1]=='k' else ({'p':'fifth','q':'fifth','r':'fifth','s':'fifth','u':'sixth','v':'sixth','w':'sixth','x':'seventh','y':'seventh','z':'seventh'}.get(sid[-1],'fourth')) + ' round: the prompt carried the full property record and a FOCUS file taken from the property\'s own anchors')
 
 
 def main():
